@@ -26,7 +26,10 @@ def main(argv=None):
         with open(a.replay) as f:
             doc = json.load(f)
         case = core.unjson(doc['case'])
-        r = core.guard(lambda: mod.replay(case))
+        if doc.get('prev') is not None:
+            r = core.guard(lambda: core.replay_after(mod, core.unjson(doc['prev']), case))
+        else:
+            r = core.guard(lambda: mod.replay(case))
         print(json.dumps(doc['case'], indent=1)[:4000])
         if r is None:
             print(f'replay: property {mod.ID} HOLDS on this case')
